@@ -15,7 +15,7 @@ RULE = ("Datasets of 1-4 variables over 1-3 dims (some variables lack the operat
         "attrs on dataset and variables; operation in {take/.loc/.sel/.ix/.isel with scalar, list, slice, by dict / axis= name / position; "
         "mean/std/var/median/sum(axis); take_axis; sort_axis; reindex_axis (subset, superset with missing labels, axis by name / position, "
         "fill); interp_axis (in and out of range); ds op ds' (equal / differing labels), ds op scalar, -ds; stack_ds / concatenate_ds of "
-        "2-3 Datasets as list or dict}. class = (operation, form, #vars lacking the dim, has 0-d var, label kind, order); trivial = none")
+        "2-3 Datasets as list or dict}; sort_axis also over a non-increasing axis with tied labels. class = (operation, form, #vars lacking the dim, has 0-d var, label kind, order); trivial = none")
 ANCHORS = ["dataset.take", "dataset._apply_dimarray_axis", "dataset.reduce_axis", "dataset.reindex_axis", "dataset.interp_axis",
            "dataset._binary_op", "dataset._unary_op", "dataset.stack_ds", "dataset.concatenate_ds", "dataset.take_axis", "dataset.sort_axis"]
 # entry points the workload calls itself; the other anchors are helpers behind them (counted as evidence only)
